@@ -156,7 +156,10 @@ where
         //
         //                  t -->
         //
-        if bundle.lifetime().verify().is_err() {
+        // Bundles in a set which got restored from persisted state were not necessarily checked
+        // by us, so we look at the whole bundle (lifetime _and_ pre-key signature), like the
+        // one-time path does.
+        if bundle.verify().is_err() {
             continue;
         }
 
